@@ -476,8 +476,52 @@ def r04_9(ctx):
              "parser 2 replaces it by spaces", h.loc(partial[0])) if partial or not whole else ctx.ok(construct, h.loc(whole[0]), sites=len(whole)))
 
 
+def r04_10(ctx):
+    """R04.10 bookkeeping of the two front ends: (a) in parser 2 every push onto file_stack / location_stack has its pop at
+    the same loop level (one `source` line may match several files); (b) the help-block look-ahead returns positions of the
+    list it was given, not of the slice it searched; (c) type-dependent clean-up of an entry's defaults (legacy bool
+    literals -> n) runs after the whole entry was read in both parsers - the `default` line may precede the type line."""
+    from .common import slice_enumerate_offset, stack_balance
+    repo = ctx.repo
+    stack_balance(ctx, [f.qual for f in repo.funcs_in(P2) if f.cls == "Parser" and f.parent is None])
+    slice_enumerate_offset(ctx, [f.qual for f in repo.funcs_in("esp_kconfiglib.kconfig_grammar") if f.parent is None])
+    pp = repo.func(f"{CORE}:Kconfig._parse_props")
+    ctx.analysed(pp.qual)
+    calls = [n for n in ast.walk(pp.node) if isinstance(n, ast.Call) and ast.unparse(n.func).endswith("_sanitize_bool_literal_defaults")]
+    construct = "Kconfig._parse_props/bool-literal defaults are sanitised once the whole entry was read"
+    if not calls:
+        ctx.bad(construct, "parser 1 no longer sanitises legacy bool literals (parser 2 does)", pp.loc())
+    else:
+        inside = [c for c in calls if any(isinstance(p, (ast.While, ast.For)) for p in _ancestors(repo, c, pp.node))]
+        (ctx.bad(construct, "the clean-up runs inside the property loop, i.e. possibly before the `bool` line set the type it depends on: "
+                 "`default true` written before the type line stays a symbol reference in parser 1 and becomes n in parser 2", pp.loc(inside[0]))
+         if inside else ctx.ok(construct, pp.loc(calls[0])))
+    p2 = [f for f in repo.funcs_in(P2) if any(isinstance(n, ast.Call) and ast.unparse(n.func).endswith("_sanitize_bool_literal_defaults") for n in ast.walk(f.node))]
+    construct = "Parser (v2)/bool-literal defaults are sanitised after the type of the entry was set"
+    if not p2:
+        ctx.bad(construct, "parser 2 no longer sanitises legacy bool literals (parser 1 does)", "")
+    else:
+        f2 = p2[0]
+        c2 = [n for n in ast.walk(f2.node) if isinstance(n, ast.Call) and ast.unparse(n.func).endswith("_sanitize_bool_literal_defaults")][0]
+        def top_index(n):
+            cur = n
+            for p in _ancestors(repo, n, f2.node):
+                cur = p
+            return f2.node.body.index(cur) if cur in f2.node.body else -1
+        st = [n for n in ast.walk(f2.node) if isinstance(n, ast.Call) and ast.unparse(n.func).endswith("_set_type")]
+        ok2 = bool(st) and 0 <= top_index(st[0]) < top_index(c2)
+        (ctx.ok(construct, f2.loc(c2)) if ok2 else ctx.bad(construct, "the clean-up does not follow the statement that sets the entry's type", f2.loc(c2)))
+
+
+def _ancestors(repo, n, stop):
+    p = repo.parent(n)
+    while p is not None and p is not stop:
+        yield p
+        p = repo.parent(p)
+
+
 def rules():
-    return [("R04.1", r04_1, 20), ("R04.2", r04_2, 25), ("R04.3", r04_3, 14), ("R04.4", r04_4, 8), ("R04.5", r04_5, 5),
+    return [("R04.10", r04_10, 4), ("R04.1", r04_1, 20), ("R04.2", r04_2, 25), ("R04.3", r04_3, 14), ("R04.4", r04_4, 8), ("R04.5", r04_5, 5),
             ("R04.6", r04_6, 3), ("R04.7", r04_7, 3), ("R04.8", r04_8, 4), ("R04.9", r04_9, 2)]
 
 
